@@ -51,7 +51,7 @@ HELPERS = ["all", "any", "count", "count_unique", "first", "last", "nth", "min",
 NUMERIC_ONLY = {"all", "any", "mean", "median", "quantile", "std", "var", "sum"}
 KINDS = ["f8", "i8", "b1", "D", "us"]
 ALPHA = {
-    "f8": [None, "1.0", "2.0", "-1.5"],
+    "f8": [None, "1.0", "2.0", "-1.5", "inf", "-inf"],
     "i8": [0, 1, 2, -3],
     "b1": [False, True],
     "D": [None, "1970-01-01", "2020-02-29"],
@@ -293,9 +293,21 @@ def worker():
         else:
             frames = []
             for n in range(1, spec["n"] + 1):
-                for toks in itertools.product(ALPHA[kind], repeat=n):
+                full = ALPHA[kind]
+                alpha_n = full if (len(full) * 2) ** n <= 4000 else full[:4]
+                for toks in itertools.product(alpha_n, repeat=n):
                     for groups in itertools.product([1, 2], repeat=n):
                         frames.append((list(toks), list(groups)))
+            # size ladder: periodic long groups (sorting inside a kernel is stable only below 16 elements)
+            a = ALPHA[kind][:4]
+            for length in (17, 40, 130):
+                for p in (2, 3):
+                    for pat in itertools.product(a, repeat=p):
+                        if len(set(pat)) < 2:
+                            continue
+                        toks = [pat[i % p] for i in range(length)]
+                        frames.append((toks, [1] * length))
+                        frames.append((toks, [1 + (i * 2 >= length) for i in range(length)]))
         for toks, groups in frames:
             compare(kind, toks, groups, calls,
                     lambda hh, kw, toks=toks, groups=groups: {"mode": "inputs", "helper": hh, "kind": kind, "toks": toks, "groups": groups, "kwargs": kw, "n": len(toks)})
